@@ -658,6 +658,9 @@ func (fr *frame) applyContract(fc *FuncContract, display string, names []string,
 	post := &SpecEnv{c: c, fr: fr, vars: env.vars, st: st, old: pre, pkg: env.pkg, results: rs, resultNames: resultNames(sig)}
 	post.oldAlloc = preAlloc
 	for _, e := range fc.Ensures {
+		if e.Local {
+			continue
+		}
 		fr.assumeR(post.trBool(e.Expr))
 		for _, u := range e.Using {
 			c.lemmasUsed[u] = true
